@@ -122,6 +122,9 @@ pub fn run(ctx: &Ctx) -> CheckResult {
     }
     // ---- (2) compiler outputs of the corpus
     for item in scen::source_items(&ctx.corpus) {
+        if item.tags.iter().any(|t| t == "no-roundtrip") {
+            continue;
+        }
         let mut rng = Rng::new(rng::mix(ctx.seed, &item.id, 102));
         let n = if quick { 1 } else { 6 };
         for k in 0..n {
